@@ -28,7 +28,7 @@ MOUNTS = {'root-only': ['/'], 'v1': ['/', '/mnt/v1'], 'home': ['/', '/home'],
           'home+v1+v2': ['/', '/home', '/mnt/v1', '/mnt/v2'], 'nested': ['/', '/mnt/v1', '/mnt/v1/inner']}
 TOPS = ['absent', 'sticky', 'nonsticky', 'symlink', 'file']
 ALTS = ['absent', 'dir', 'file', 'link-dir', 'dangling']
-LOCS = ['home', 'other', 'nested', 'via-symlink', 'linkdir-slash']
+LOCS = ['home', 'other', 'nested', 'via-symlink', 'linkdir-slash', 'link-to-file-elsewhere']
 ENVS = ['xdg', 'unset', 'empty', 'nohome', 'none', 'local-link', 'xdg-under-link']
 OPTS = ['-', 'td-same', 'td-other', 'td-symlink', 'td-under-link']
 FBS = ['off', 'flag', 'env', 'both', 'flag+env0', 'flag+envyes']
@@ -36,8 +36,8 @@ FBS = ['off', 'flag', 'env', 'both', 'flag+env0', 'flag+envyes']
 
 def dimensions(tier):
     q = tier != 'thorough'
-    return {'mounts': 3 if q else 5, 'top': 5, 'top_uid': 2, 'alt': 3 if q else 5, 'location': 5, 'env': 5 if q else 7,
-            'option': 4 if q else 5, 'fallback': 3 if q else 6, 'uid': 1 if q else 2}
+    return {'mounts': 3 if q else 5, 'top': 5, 'top_uid': 2, 'alt': 3 if q else 5, 'location': 6, 'env': 5 if q else 7,
+            'option': 4 if q else 5, 'fallback': 4 if q else 6, 'uid': 1 if q else 2}
 
 
 def cases(tier):
@@ -50,7 +50,7 @@ def cases(tier):
                     out.append({'multi': order, 'm': m, 'top': top, 'env': e, 'uid': 0})
     for uid in ([0] if q else [0, 1000]):
         for m in (['v1', 'home', 'nested'] if q else list(MOUNTS)):
-            for fb in (['off', 'both', 'flag+env0'] if q else FBS):
+            for fb in (['off', 'both', 'flag+env0', 'env'] if q else FBS):
                 for o in (['-', 'td-same', 'td-other', 'td-under-link'] if q else OPTS):
                     for e in ([x for x in ENVS if x not in ('nohome', 'none')] if q else ENVS):
                         for loc in LOCS:
@@ -150,6 +150,9 @@ def run_case(c):
     elif loc == 'via-symlink':
         W.file('/mnt/v1/w/f', 'F\n').link('/home/u/w/xl', '/mnt/v1/w')
         arg, E = 'xl/f', '/mnt/v1/w/f'
+    elif loc == 'link-to-file-elsewhere':
+        W.file('/mnt/v1/w/target', 'T\n').link('/home/u/w/lnkf', '/mnt/v1/w/target')
+        arg, E = 'lnkf', '/home/u/w/lnkf'
     else:
         W.link('/home/u/w/lnkdir', '/mnt/v1/w/sub')
         arg, E = 'lnkdir/', '/home/u/w/lnkdir'
